@@ -28,8 +28,10 @@ PARTIAL = [
     {"theorem": "dyk_runMode_orders (clause C05.5 object level = variable level)",
      "missing": "definitional in the model (one loop for both levels, conversions var <-> stacked vector not modelled): established by the "
                 "oracle and the correspondence only"},
-    {"theorem": "isProj_* instances", "missing": "proved for State eq, Gate eq (flat vector) and the PSD projection for a complete basis over R "
-     "(State, Gate via Choi basis); Povm/MProcess projections have their VI theorems in C04 on shaped objects but no IsProj instance"},
+    {"theorem": "dyk_run_tapped / dyk_runMode_tapped", "missing": "the equality of the executed run (tapped eigh constants) with the run of the "
+     "genuine projections assumes EXACT eigen-decompositions and eps_truncate_imaginary_part = 0 (C04's idealisation); IsProj instances "
+     "exist for all four types (m-process outcomes: the block theorem is stated for the operator basis; the Choi-basis instance is "
+     "obtained by instantiating it at kronBasis with orthoN_kronBasis / hermB_kron)"},
 ]
 EPSS = [1e-14, 1e-12, 1e-10, 1e-8, 1e-6]
 ORDERS = ("eq_ineq", "ineq_eq")
